@@ -10,14 +10,16 @@ import c02
 import engine
 
 LEVEL = "proof"
-ENGINE_PROPS = [("Props_C03.v", ["C03_close_idem", "C03_close_idem_inv", "C03_close_twice"])]
+ENGINE_PROPS = [("Props_C03.v", ["C03_close_idem", "C03_close_idem_inv", "C03_close_twice", "C03_history_indep_partial"]),
+                ("Props_Least.v", ["Least_close_least", "Least_hom_complete", "Least_history_indep", "Least_resume_iso"])]
 VARIANTS = ["perm", "perm", "closes", "closes", "dups", "twice"]
 
 
 def run(ctx):
     ctx.trusted = engine.TRUSTED
-    ctx.assumptions = engine.ASSUME + ["history independence itself is carried by the comparison with the reference free model "
-                                       "(C03_history_indep_full is stated, not proved, for the engine model)"]
+    ctx.assumptions = engine.ASSUME + ["history independence is proved for the engine model (C03_history_indep_partial via Least_close_least) for histories "
+                                       "whose assertions mention only elements created by new_ (AtomsOnly); histories that pass define_ results "
+                                       "to later calls are carried by the comparison with the reference free model"]
     ok_sem, ok_h = engine.build(ctx, ENGINE_PROPS)
     if not ok_h:
         return
